@@ -238,22 +238,25 @@ CLAIMS = {
   technique="contract-based deductive verification (obligations at call / store sites via hooks, ghost function future -> run id) + bounded stand-ins with controlled completion orders",
   design_ref="DESIGN.md section 6 (C15) and 10"),
  "C08": dict(
-  category="proof",
-  text="Contract-based deductive proof over the real source of Plugin.do_compute, for every pair / triple of input chunks (per arity 1..3): a "
+  category="exploration",
+  text="The property as a whole (time-aligned adjacent calls, every input row exactly once) is decided by bounded exploration of the real "
+       "Plugin.iter (see the end of this text); its guards are proved: contract-based deductive proof over the real source of Plugin.do_compute, for every pair / triple of input chunks (per arity 1..3): a "
        "plugin that saves by default reaches its computation only with inputs that all cover one identical time interval (otherwise "
        "ValueError before compute), the computation gets exactly the rows of every input (chunk_i / start / end exactly when it takes "
        "them), the result is declared to cover exactly that interval and inherits the inputs' common run annotations; Chunk.split (used "
        "for every trim) obeys the laws of chunking. The behaviour of Plugin.iter as a whole - time-aligned adjacent calls, same-kind "
        "inputs merged row by row, every input row delivered exactly once in order, errors for undeliverable rows - is a bounded stand-in "
        "on the real Plugin.iter driven by hand-made chunk iterators (found defect F11, fixed).",
-  note="Plugin.iter (generator over a dict of input buffers with pacemaker, fetch loops, re-trim passes and end-of-run checks) is not "
-       "under contract; Chunk.concatenate / merge are covered by bounded stand-ins only. do_compute is verified per arity for "
-       "single-output plugins.",
+  note="The level is 'exploration' because Plugin.iter (generator over a dict of input buffers with pacemaker, fetch loops, re-trim "
+       "passes and end-of-run checks) is not under contract; proved for all inputs are do_compute (per arity, single-output plugins), "
+       "Chunk.split, Chunk.concatenate and Chunk.merge of two chunks. The stand-in also covers per-chunk processing (chunk_i).",
   technique="contract-based deductive verification (per-arity symbolic execution with recorded call arguments) + bounded stand-in on the real Plugin.iter",
   design_ref="DESIGN.md section 6 (C08) and 10"),
  "C09": dict(
-  category="proof",
-  text="Contract-based deductive proof over the real source of OverlapWindowPlugin.do_compute (one input kind, one output; first and "
+  category="exploration",
+  text="The property's core - output over any chunking equals the whole-run computation - is decided by bounded exploration of the real "
+       "OverlapWindowPlugin (see the end of this text); the window bookkeeping is proved: contract-based deductive proof over the real "
+       "source of OverlapWindowPlugin.do_compute (one input kind, one output; first and "
        "later calls), modularly over the proved Chunk.split contract, for every input chunk, cached input and computation result: what "
        "is sent starts where the previous call stopped sending, ends at the new sent_until where the withheld results start (these reach "
        "to the end of the input), nothing beyond end - 2*look-ahead - 1 is sent, sent rows end by sent_until and withheld rows start at "
@@ -290,8 +293,8 @@ CLAIMS = {
   technique="contract-based deductive verification (obligations at the Chunk constructor call via hooks; Saver contracts) + bounded stand-in on the real code",
   design_ref="DESIGN.md section 6 (C16) and 10"),
  "C01": dict(
-  category="proof",
-  text="Contract-based deductive proof over the real source of the per-function building blocks the end-to-end statement rests on, "
+  category="other",
+  text="Ingredients only, not the end-to-end theorem: contract-based deductive proof over the real source of the per-function building blocks the end-to-end statement rests on, "
        "each for all inputs: split_array / Chunk.split keep every row, in order, wholly on one side of the split; Plugin.do_compute "
        "hands the computation exactly the rows of time-aligned inputs and declares the result for exactly that interval; "
        "Plugin._fix_output wraps a result into a chunk of the declared data type, range and dtype or refuses it; continuity_check lets "
